@@ -468,7 +468,7 @@ func callWriter(c *core.Ctx, ev *eval.Evaluator, fn *types.Func, feedType types.
 			return "", errs, fmt.Errorf("no value for parameter %s", p.Name())
 		}
 	}
-	if _, err := ev.CallFunc(fn, args...); err != nil {
+	if _, err := ev.CallFuncBound(fn, args...); err != nil {
 		return "", errs, err
 	}
 	var sb strings.Builder
